@@ -118,6 +118,15 @@ Theorem C08_gc_sched_partial : forall c now bk fid nseq d0 batch acked0,
 Proof. exact serial_all. Qed.
 Print Assumptions C08_gc_sched_partial.
 
+(** The routed variant of the model used for the hot/cold-bucket profile of the correspondence
+    (the bucket of each out-of-line entry is reported by the harness) is the proved model when the
+    reported bucket is the static one. *)
+Theorem C08_routed_model_static : forall c d batch now bk fid nseq,
+  db_write_r c d (static_route c batch) = db_write c d batch /\
+  rewrite_r c now d bk fid nseq [] = rewrite c now d bk fid nseq.
+Proof. exact routed_model_static. Qed.
+Print Assumptions C08_routed_model_static.
+
 (** The boolean oracle of the correspondence decides equality of observations. *)
 Theorem C08_oracle_decides : forall a b, obs_eqb a b = true <-> a = b.
 Proof. exact obs_eqb_spec. Qed.
